@@ -9,9 +9,11 @@ import (
 
 	"github.com/gardenbed/emerge/zz_verif/c17"
 	"github.com/gardenbed/emerge/zz_verif/simrt"
+	simctl "github.com/moorara/algo/zz_simctl"
 )
 
 func main() {
+	simctl.Quiet = true // map ranges are ordered, not counted: workers share no harness state the detector could report
 	e := c17.Engine{FixtureDir: os.Getenv("VERIF_FIXTURES"), IsoTable: os.Getenv("VERIF_ISO_TABLE"), RaceLog: os.Getenv("VERIF_RACE_LOG")}
 	if len(os.Args) == 3 && os.Args[1] == "-iso-op" {
 		var o c17.Op
